@@ -80,6 +80,23 @@ func harnessDirsFor(prop string) (map[string][]string, error) {
 		}
 		return nil
 	})
+	// a harness dir may need the harness files of another package to compile (an exported bridge placed there
+	// by the overlay): harness/<dir>/zz_requires lists such dirs, one per line
+	for rel := range out {
+		raw, rerr := os.ReadFile(filepath.Join(root, rel, "zz_requires"))
+		if rerr != nil {
+			continue
+		}
+		for _, line := range strings.Split(string(raw), "\n") {
+			line = strings.TrimSpace(line)
+			if line == "" || strings.HasPrefix(line, "#") {
+				continue
+			}
+			if _, ok := out[line]; !ok {
+				out[line] = []string{}
+			}
+		}
+	}
 	return out, err
 }
 
